@@ -17,6 +17,7 @@ def main() -> int:
     ap.add_argument("--tier", default=os.environ.get("VERIF_TIER", "quick"), choices=["quick", "thorough"])
     ap.add_argument("--replay")
     ap.add_argument("--json", action="store_true")
+    ap.add_argument("--full", action="store_true")
     ap.add_argument("--workers", type=int, default=int(os.environ.get("VERIF_WORKERS", "0")) or (os.cpu_count() or 4))
     a = ap.parse_args()
     os.environ.setdefault("PYTHONHASHSEED", "0")
@@ -25,7 +26,7 @@ def main() -> int:
     from mc import engine
 
     if a.replay:
-        return engine.replay(modname, a.replay, a.json)
+        return engine.replay(modname, a.replay, a.json, a.full)
     return engine.run(modname, a.tier, seed, a.workers)
 
 
